@@ -226,3 +226,57 @@ pub fn cond(op: u8, args: &[Sx]) -> Sx {
     v.extend_from_slice(args);
     Sx::list(&v)
 }
+
+/// canonical form of an owned (allocator-free) result
+pub fn canon_owned(c: &OwnedSpendBundleConditions, mempool: bool) -> CSummary {
+    let pk = |v: &Vec<(chia_bls::PublicKey, chia_protocol::Bytes)>| -> Vec<Pkm> { v.iter().map(|(k, m)| (k.to_bytes().to_vec(), m.as_ref().to_vec())).collect() };
+    let mut spends = Vec::new();
+    for s in &c.spends {
+        let mut cc: Vec<([u8; 32], u64, Option<Vec<u8>>)> = s
+            .create_coin
+            .iter()
+            .map(|(ph, am, hint)| (ph.to_bytes(), *am, hint.as_ref().map(|h| h.as_ref().to_vec()).filter(|h| !h.is_empty())))
+            .collect();
+        cc.sort();
+        let mut flags = 0;
+        if s.flags & HAS_RELATIVE_CONDITION != 0 {
+            flags |= F_HAS_RELATIVE;
+        }
+        if mempool {
+            if s.flags & ELIGIBLE_FOR_DEDUP != 0 {
+                flags |= F_DEDUP;
+            }
+            if s.flags & ELIGIBLE_FOR_FF != 0 {
+                flags |= F_FF;
+            }
+        }
+        spends.push(CSpend {
+            coin_id: s.coin_id.to_bytes(),
+            parent: s.parent_id.to_bytes(),
+            puzzle_hash: s.puzzle_hash.to_bytes(),
+            amount: s.coin_amount,
+            height_relative: s.height_relative,
+            seconds_relative: s.seconds_relative,
+            before_height_relative: s.before_height_relative,
+            before_seconds_relative: s.before_seconds_relative,
+            birth_height: s.birth_height,
+            birth_seconds: s.birth_seconds,
+            create_coin: cc,
+            agg_sigs: [pk(&s.agg_sig_me), pk(&s.agg_sig_parent), pk(&s.agg_sig_puzzle), pk(&s.agg_sig_amount), pk(&s.agg_sig_puzzle_amount), pk(&s.agg_sig_parent_amount), pk(&s.agg_sig_parent_puzzle)],
+            flags,
+            condition_cost: s.condition_cost,
+        });
+    }
+    CSummary {
+        spends,
+        reserve_fee: c.reserve_fee,
+        height_absolute: c.height_absolute,
+        seconds_absolute: c.seconds_absolute,
+        before_height_absolute: c.before_height_absolute,
+        before_seconds_absolute: c.before_seconds_absolute,
+        agg_sig_unsafe: pk(&c.agg_sig_unsafe),
+        removal_amount: c.removal_amount,
+        addition_amount: c.addition_amount,
+        condition_cost: c.condition_cost,
+    }
+}
